@@ -1,5 +1,9 @@
-(* C03: the boolean checker of Corr/C03.v ([stream_clauses], evaluated on every
-   observation of the implementation) decides the property as a proposition. *)
+(* C03: bool/Prop reflection for the stream part of the checker of Corr/C03.v.
+   [stream_clauses] (evaluated on every observation of the implementation) returns
+   no clause number exactly when [stream_prop] holds.  [stream_prop] is a
+   propositional restatement of the same clauses: the theorem rules out slips in
+   the boolean code (prefix / split / equality functions); it does NOT tie the
+   checker to the model or to the property text. *)
 From Coq Require Import List NArith Bool Arith Lia.
 Import ListNotations.
 From Onet Require Import Net.Frame Net.Marshal Net.WireProofs Corr.C03.
